@@ -153,7 +153,7 @@ def pMany {β : Type} (p : Tok → Option (β × Tok)) : Nat → Tok → Option 
   | n+1, t => do let (a, t) ← p t; let (as, t) ← pMany p n t; pure (a :: as, t)
 
 def pCounted {β : Type} (p : Tok → Option (β × Tok)) : Tok → Option (List β × Tok)
-  | c :: t => do let n ← c.toNat?; pMany p n t
+  | c :: t => if c = "nil" then some ([], t) else do let n ← c.toNat?; pMany p n t
   | [] => none
 
 def pPts := pCounted pPt
